@@ -78,7 +78,8 @@ pub enum RK {
     Join { a: Src, b: Src },
     Select { a: Src, b: Src },
     Burst { m: S, a: Src },
-    SelfAbort { a: Src, m: Option<S>, handle: u16 },
+    /// `spawn`: it spawns a child (notify at that site) in the poll in which it aborts
+    SelfAbort { a: Src, m: Option<S>, handle: u16, spawn: Option<S> },
     HandOff { a: Src, b: Src, c: S },
     JoinSpawn { a: Src, b: Src, n: S },
     StreamHandOff { a: Src, c: S },
@@ -215,7 +216,7 @@ impl RCmd {
             }
             P::Manual(q) => RCmd::build(q),
             P::JoinHosted(s, q) => single(task(RK::Host { cur: Box::new(RCmd::build(q)), rest: vec![], eff_tags: 0, ev_tags: 0, own: Some(Src::new(*s)) })),
-            P::SelfAbort(s, _) | P::QuietSelfAbort(s) => {
+            P::SelfAbort(s, _) | P::QuietSelfAbort(s) | P::SpawnThenSelfAbort(s, _) => {
                 let mut c = single(task(RK::Fresh(p.clone())));
                 c.abort_ids.push(2000 + s.id);
                 c
@@ -553,12 +554,17 @@ impl RCmd {
                 P::SelfAbort(s, m) => {
                     let mut a = Src::new(s);
                     cx.eff(&mut a, Kind::Once, 0);
-                    t.kind = RK::SelfAbort { a, m: Some(m), handle: 2000 + s.id };
+                    t.kind = RK::SelfAbort { a, m: Some(m), handle: 2000 + s.id, spawn: None };
+                }
+                P::SpawnThenSelfAbort(s, m) => {
+                    let mut a = Src::new(s);
+                    cx.eff(&mut a, Kind::Once, 0);
+                    t.kind = RK::SelfAbort { a, m: None, handle: 2000 + s.id, spawn: Some(m) };
                 }
                 P::QuietSelfAbort(s) => {
                     let mut a = Src::new(s);
                     cx.eff(&mut a, Kind::Once, 0);
-                    t.kind = RK::SelfAbort { a, m: None, handle: 2000 + s.id };
+                    t.kind = RK::SelfAbort { a, m: None, handle: 2000 + s.id, spawn: None };
                 }
                 P::StreamHandOff(s, c) => {
                     let mut a = Src::new(s);
@@ -791,8 +797,14 @@ impl RCmd {
                 cx.eff(&mut src, Kind::Never, *arg);
                 Run::Finished
             }
-            RK::SelfAbort { a, m, handle } => match a.st {
+            RK::SelfAbort { a, m, handle, spawn } => match a.st {
                 St::V(v) => {
+                    if let Some(n) = spawn {
+                        // spawned in the poll of the abort: still in the spawn queue when the command is
+                        // aborted, so it never runs
+                        let n = *n;
+                        self.spawnq.push(task(RK::NotifyArg { m: n, arg: v }));
+                    }
                     // aborts the command it runs in; what it emits in this poll is still delivered
                     if let Some(m) = m {
                         cx.got(a.site, v);
